@@ -57,6 +57,9 @@ enum Scenario {
     LocalKeyGarbage,
     LocalKeyWrongGuidInside,
     LocalKeyEmpty,
+    /// fresh latch, but the key directory's path is occupied by a regular file until the host has handed out a key once
+    /// (the first store fails; the host hands the same pending key out again, as the in-tree server mock does)
+    StoreBlockedFirst,
 }
 
 #[derive(Clone, Debug, Serialize, Deserialize, Hash, PartialEq, Eq)]
@@ -158,6 +161,8 @@ fn reset_host(env: &Env, key_dir: &Path) {
         s.attest_arrival_violations.clear();
         s.guest_key_dir = Some(key_dir.to_path_buf());
         s.counters = Default::default();
+        s.reissue_pending = false;
+        s.pending_issue = None;
     });
 }
 
@@ -166,7 +171,11 @@ fn prepare(env: &Env, c: &Case, key_dir: &Path) -> Result<(), String> {
     let _ = std::fs::remove_dir_all(key_dir);
     std::fs::create_dir_all(key_dir).map_err(|e| e.to_string())?;
     reset_host(env, key_dir);
-    if c.scenario != Scenario::FreshLatch {
+    if c.scenario == Scenario::StoreBlockedFirst {
+        let _ = std::fs::remove_dir_all(key_dir);
+        std::fs::write(key_dir, b"not a directory").map_err(|e| e.to_string())?;
+        env.host.with(|s| s.reissue_pending = true);
+    } else if c.scenario != Scenario::FreshLatch {
         // a clean run latches a key and leaves it on disk
         let r = run_child(env, key_dir, None, "prep");
         if r.exit != Some(0) {
@@ -175,7 +184,7 @@ fn prepare(env: &Env, c: &Case, key_dir: &Path) -> Result<(), String> {
         let latched = env.host.with(|s| s.latched.clone()).ok_or("preparation run latched nothing")?;
         let f = key_dir.join(format!("{}.key", latched));
         match c.scenario {
-            Scenario::RestartWithKeyOnDisk | Scenario::FreshLatch => {}
+            Scenario::RestartWithKeyOnDisk | Scenario::FreshLatch | Scenario::StoreBlockedFirst => {}
             Scenario::Rotation => {
                 // somebody else now holds the channel: the host names a key this guest never stored
                 env.host.with(|s| {
@@ -230,6 +239,26 @@ fn check_key_files(key_dir: &Path) -> Result<(), (String, String)> {
     Ok(())
 }
 
+/// StoreBlockedFirst: once the host has handed out a key, the file occupying the key directory's path gives way to a directory
+fn arm_unblock(env: &Env, c: &Case, key_dir: &Path) {
+    if c.scenario != Scenario::StoreBlockedFirst {
+        return;
+    }
+    let h = env.host.clone();
+    let kd = key_dir.to_path_buf();
+    std::thread::spawn(move || {
+        for _ in 0..200000 {
+            if h.with(|s| s.counters.acquire_ok) >= 1 {
+                std::thread::sleep(Duration::from_millis(30));
+                let _ = std::fs::remove_file(&kd);
+                let _ = std::fs::create_dir_all(&kd);
+                break;
+            }
+            std::thread::sleep(Duration::from_micros(200));
+        }
+    });
+}
+
 /// one crash experiment; returns (non-trivial?, syscall line at the kill point)
 fn experiment(env: &Env, c: &Case, stats: &mut Stats) -> Result<(bool, String), (String, String)> {
     let key_dir = env.work.join("keys");
@@ -255,6 +284,7 @@ fn experiment(env: &Env, c: &Case, stats: &mut Stats) -> Result<(bool, String), 
             }
         });
     }
+    arm_unblock(env, c, &key_dir);
     let latched_before = env.host.with(|s| s.latched.clone());
     let r = run_child(env, &key_dir, c.kill_call.as_ref(), "kill");
     if r.timed_out {
@@ -398,7 +428,7 @@ fn main() {
         stats.write_worker_files(&params.out, &params.prop, "syscall-order part: uninjected strace runs of the real key keeper on a key directory that does not exist yet / exists with mode 0777; oracle: chmod 0700 (and chown root) of the key directory precede the first O_CREAT inside it, and the directory ends with mode 0700 owner root.", &["strace sees every file-system call of the single-threaded key keeper child"], t0.elapsed().as_secs_f64());
         std::process::exit(0);
     }
-    let scenarios = [Scenario::FreshLatch, Scenario::RestartWithKeyOnDisk, Scenario::Rotation, Scenario::LocalKeyTruncated, Scenario::LocalKeyGarbage, Scenario::LocalKeyWrongGuidInside, Scenario::LocalKeyEmpty];
+    let scenarios = [Scenario::FreshLatch, Scenario::RestartWithKeyOnDisk, Scenario::Rotation, Scenario::LocalKeyTruncated, Scenario::LocalKeyGarbage, Scenario::LocalKeyWrongGuidInside, Scenario::LocalKeyEmpty, Scenario::StoreBlockedFirst];
     let fault_scripts = [HostFaults::None, HostFaults::AttestLatchedReplyLost, HostFaults::AcquireErrorFirst, HostFaults::AttestErrorFirst, HostFaults::AcquireGarbageFirst, HostFaults::AttestResetFirst, HostFaults::StatusErrorFirst];
     let mut plan: Vec<Case> = Vec::new();
     let mut windows: Vec<serde_json::Value> = Vec::new();
@@ -446,7 +476,26 @@ fn main() {
                     }
                 });
             }
+            arm_unblock(&env, &dry, &key_dir);
             let r = run_child(&env, &key_dir, None, "dry");
+            // the uninjected run is a history too: ordering and store invariants hold there as well
+            stats.eval();
+            stats.class("run:uninjected");
+            let dry_fail = env.host.with(|s| s.attest_arrival_violations.first().cloned()).map(|v| ("ordering:key-attested-before-it-was-stored-and-verified".to_string(), format!("{} (uninjected run of {:?}/{:?})", v, sc, f))).or_else(|| {
+                // (the scenarios that start from a damaged store keep their own damaged file when the agent does not touch it)
+                if matches!(sc, Scenario::LocalKeyTruncated | Scenario::LocalKeyGarbage | Scenario::LocalKeyWrongGuidInside | Scenario::LocalKeyEmpty) {
+                    None
+                } else {
+                    check_key_files(&key_dir).err()
+                }
+            });
+            if let Some((sig, d)) = dry_fail {
+                if known.is_known(&sig) {
+                    stats.known(&sig);
+                } else if !stats.violations.iter().any(|v| v.signature == sig) {
+                    stats.violation(Violation { signature: sig, detail: d, replay: serde_json::json!({"engine": "c08.crash", "case": dry}) });
+                }
+            }
             let lines: Vec<&String> = r.trace.iter().filter(|l| !l.contains("+++") && !l.contains("--- SIG")).collect();
             let total = lines.len() as u32;
             let first_poll = lines.iter().position(|l| l.contains("connect(") && l.contains(&format!("htons({})", port))).map(|p| p as u32 + 1).unwrap_or(1);
@@ -559,7 +608,7 @@ fn main() {
     stats.extra.insert("windows".into(), serde_json::json!(windows));
     stats.extra.insert("exhaustive_over_kill_points".into(), serde_json::json!(th && params.replay.is_none()));
     let _ = std::fs::remove_dir_all(&work);
-    let rule = "enumeration: scenario in {fresh latch, restart with the key on disk, rotation (the host names a key that is not in the store), local key truncated / garbage / valid JSON of another key / empty} x host-fault script in {none, first status / acquire / attest call fails with an error status, garbage body or reset, or the host latches the key but its attestation reply is lost} x kill point N = the N-th file-system, socket or descriptor-writing syscall (all of %file and %network plus read/write/close/fsync/fcntl/dup/...; the readiness-polling calls are left out) of the real KeyKeeper child, addressed to strace as 'the k-th invocation of syscall S' taken from line N of an uninjected dry run (strace counts injections per syscall: inject=S:signal=SIGKILL:when=k; the signal arrives on entering the call), N from the first status poll's connect to three past the last syscall of an uninjected dry run. thorough: every N; quick: a seeded stratified sample of 22 per (scenario, script) plus every syscall of the dry run that touches the key directory (by path or through a descriptor opened there) and its successor. oracle in the parent: at the instant an attestation request ARRIVES the file <guid>.key exists, is complete JSON and holds the issued guid and key; after the kill no *.key file is truncated or corrupt (the scenario's own damaged file excepted while untouched); a key the host latched is in the store; a fresh, unkilled agent on that directory performs a signed request that verifies at the host, without requesting a new key when the latched one is in the store. non-trivial: the kill fell between the acquire answer and the attest answer, or the scenario starts from a damaged store; distinct by (scenario, script, N).";
+    let rule = "enumeration: scenario in {fresh latch, restart with the key on disk, rotation (the host names a key that is not in the store), local key truncated / garbage / valid JSON of another key / empty, fresh latch with the first store blocked (the key directory's path is a regular file until the host has issued a key; the host then hands the same pending key out again)} x host-fault script in {none, first status / acquire / attest call fails with an error status, garbage body or reset, or the host latches the key but its attestation reply is lost} x kill point N = the N-th file-system, socket or descriptor-writing syscall (all of %file and %network plus read/write/close/fsync/fcntl/dup/...; the readiness-polling calls are left out) of the real KeyKeeper child, addressed to strace as 'the k-th invocation of syscall S' taken from line N of an uninjected dry run (strace counts injections per syscall: inject=S:signal=SIGKILL:when=k; the signal arrives on entering the call), N from the first status poll's connect to three past the last syscall of an uninjected dry run. thorough: every N; quick: a seeded stratified sample of 22 per (scenario, script) plus every syscall of the dry run that touches the key directory (by path or through a descriptor opened there) and its successor. every uninjected dry run is judged too (ordering and store invariants). oracle in the parent: at the instant an attestation request ARRIVES the file <guid>.key exists, is complete JSON and holds the issued guid and key; after the kill no *.key file is truncated or corrupt (the scenario's own damaged file excepted while untouched); a key the host latched is in the store; a fresh, unkilled agent on that directory performs a signed request that verifies at the host, without requesting a new key when the latched one is in the store. non-trivial: the kill fell between the acquire answer and the attest answer, or the scenario starts from a damaged store; distinct by (scenario, script, N).";
     let assumptions = ["process death only (SIGKILL at a syscall boundary): no power-loss / fsync reasoning", "the reference secure-channel host on loopback stands for the WireServer", "kill points are syscall boundaries: no externally visible effect lies between two syscalls"];
     stats.write_worker_files(&params.out, &params.prop, rule, &assumptions, t0.elapsed().as_secs_f64());
     std::process::exit(0);
